@@ -27,6 +27,10 @@ func VerifRepoDump(r rule.Repository) string {
 
 	sb.WriteString("\n")
 	sb.WriteString(repo.index.VerifDump(func(rt rule.Route) string {
+		if rt == nil {
+			return "<nil route>"
+		}
+
 		ri := rt.Rule().(*ruleImpl) //nolint:forcetypeassert
 
 		return fmt.Sprintf("%s@%s#%x", ri.id, ri.srcID, ri.hash[:4])
